@@ -113,7 +113,61 @@ def gen_cases(ctx):
     return cases
 
 
-def oracle(users, steps_replayed, obs, ses, orph, strict=False):
+def strict_modes(kind):
+    """(strict accounting, strict cut-off) for a scenario kind.  Strict accounting: the overlap families whose generator
+    guarantees that no TERMINATE verdict occurs unless the final credit shows it.  Strict cut-off: all overlap
+    families - none of them contains the schedule of C17's finding F5 (a dispatch held between GetUser and GetSession,
+    a stale CloseSession), so an open session of a cut-off user is not excused by being unreachable."""
+    k = str(kind)
+    ov = k.startswith('overlap') or k.startswith('ov')
+    return (ov and not any(x in k for x in ('reconnect', 'cutoff', 'ovRC', 'ovc'))), ov
+
+
+def round_cutoff(users, steps_replayed, obs, ses):
+    """C16's cut-off clause at the moment it applies: when an upload round (M / R thread) has finished in a step in which
+    the stored credit of a user changed (the round uploaded that user's usage) and the credit is now <= 0 in a direction,
+    or the user has expired, that user has no open session in the observation of that very step.  -> [(sig, msg)]"""
+    bad = []
+    exp, prev = {}, {}
+    for e in users.split(','):
+        if e and e[0] != 'b':
+            f = e.split(':')
+            exp[int(f[0])] = int(f[4]); prev[int(f[0])] = (int(f[2]), int(f[3]))
+    uid_of = {e[0]: e[1] for e in ses}
+    kinds = [st[0] for st in steps_replayed if st[0] in 'DCUMR']
+    now = 10
+    for j, (st, o) in enumerate(zip(steps_replayed, obs)):
+        if st.startswith('K'):
+            now += int(st[1:])
+        m = re.search(r'^Aw(\d+).*\.e(\d+)', st)
+        if m:
+            exp[int(m.group(1))] = int(m.group(2))
+        d = {}
+        for e in o[5].split(','):
+            if e:
+                f = e.split(':')
+                d[int(f[0])] = None if f[1] == 'x' else (int(f[1]), int(f[2]))
+        done = [int(t.split(':')[0]) for t in o[0].split(',') if ':F' in t]
+        if any(i < len(kinds) and kinds[i] in 'MR' for i in done) and not st.startswith('A'):
+            for u, cr in d.items():
+                if cr is None or prev.get(u) is None or prev[u] == cr:
+                    continue
+                why = None
+                if cr[0] <= 0 or cr[1] <= 0:
+                    why = 'credit %d/%d after this upload' % cr
+                elif exp.get(u, 10**12) < now:
+                    why = 'expired (expiry %d, server time %d)' % (exp[u], now)
+                if why:
+                    still = [k for k, c in enumerate(o[2]) if c == '0' and uid_of.get(k) == u]
+                    if still:
+                        bad.append(('not-cut-off-when-the-round-completed',
+                                    'user %d (%s): the upload round that charged it finished in step %d (%s) and the user still has open session(s) %s' % (
+                                        u, why, j, st, still)))
+        prev = d
+    return bad
+
+
+def oracle(users, steps_replayed, obs, ses, orph, strict=False, strict_cutoff=False):
     """Model-independent accounting.  users: initial records; steps_replayed: steps with observed byte counts;
     obs: list of 6-tuples per step; ses: [(k,uid,closed,born,readN,written,notice)].  Returns [(sig, msg)].
     strict (the overlap families: ample credit, no expiry, every termination is the CloseSession of a last
@@ -204,7 +258,7 @@ def oracle(users, steps_replayed, obs, ses, orph, strict=False):
     # cut-off: after the final rounds, exhausted / expired / deleted users have no live reachable session
     for e in ses:
         k, u, closed = e[0], e[1], e[2]
-        if u not in init or closed or k in orph:
+        if u not in init or closed or (k in orph and not strict_cutoff):
             continue
         f = final.get(u)
         why = None
@@ -214,12 +268,15 @@ def oracle(users, steps_replayed, obs, ses, orph, strict=False):
             why = 'credit %d/%d' % f
         elif exp.get(u, 10**12) < now:
             why = 'expired'
-        if why and finaltab.get(u, '-') != '-':
-            bad.append(('not-cut-off', 'user %d (%s) still has live session %d after the uploads' % (u, why, k)))
+        if why and (finaltab.get(u, '-') != '-' or strict_cutoff):
+            bad.append(('not-cut-off', 'user %d (%s) still has live session %d after the uploads%s' % (
+                u, why, k, ' (a session the panel can no longer reach: nothing collects from it or closes it)' if k in orph else '')))
+    if strict_cutoff:
+        bad += round_cutoff(users, steps_replayed, obs, ses)
     return bad
 
 
-def run_and_judge(ctx, batch, tag, strict=True):
+def run_and_judge(ctx, batch, tag, strict=True, kinds=None):
     """[(id, users, steps)] through the real panel; -> {id: [(sig, msg)]} of the accounting oracle, go output"""
     lines = ['%s 00 10 %s %s' % (cid, users, ' '.join(steps)) for cid, users, steps in batch]
     rc, log, out, dt = panellib.run_go(ctx, lines, tag, test='TestVerifC16', files=('c16_test.go', 'c17_common_test.go'))
@@ -229,7 +286,8 @@ def run_and_judge(ctx, batch, tag, strict=True):
         io = go['obs'].get(cid)
         if io is None or cid in go['blocked']:
             continue
-        bad = oracle(users, go['replay'].get(cid, [])[3:], panellib.split_obs(io), go['ses'].get(cid, []), go['orph'].get(cid, []), strict=strict)
+        sa, sc = strict_modes((kinds or {}).get(cid, kinds.get('*', cid) if kinds else cid)) if strict else (False, False)
+        bad = oracle(users, go['replay'].get(cid, [])[3:], panellib.split_obs(io), go['ses'].get(cid, []), go['orph'].get(cid, []), strict=sa, strict_cutoff=sc)
         if bad:
             res[cid] = bad
     return res, go
@@ -241,7 +299,7 @@ def shrink_case(ctx, obj, sig):
 
     def judge(batch):
         n[0] += 1
-        res, go = run_and_judge(ctx, batch, 'shrink%d' % n[0])
+        res, go = run_and_judge(ctx, batch, 'shrink%d' % n[0], kinds={'*': case.get('kind', case['id'])})
         return set(cid for cid, bad in res.items() if any(sg == sig for sg, _ in bad))
     # the two final upload rounds are what the oracle's "traffic has stopped and an upload completed" needs
     tail = case['steps'][-2:] if case['steps'][-2:] == ['R', 'R'] else []
@@ -251,7 +309,7 @@ def shrink_case(ctx, obj, sig):
         return judge([(cid, u, st + tail) for cid, u, st in batch])
     small = overlap.shrink(judge_with_tail, case['users'], body) + tail
     if len(small) < len(case['steps']):
-        res, go = run_and_judge(ctx, [(case['id'], case['users'], small)], 'shrunk')
+        res, go = run_and_judge(ctx, [(case['id'], case['users'], small)], 'shrunk', kinds={'*': case.get('kind', case['id'])})
         if case['id'] in res:
             return dict(obj, case=dict(case, steps=small), original_case=case, steps_as_executed=go['replay'].get(case['id'], [])[3:],
                         implementation=go['obs'].get(case['id']), sessions=go['ses'].get(case['id']), oracle=res[case['id']])
@@ -263,7 +321,7 @@ def search(ctx, verdict, problems):
     and the seeded scenarios showed no mis-charge: look for one among overlapped calls, densely (the exhaustive
     families of overlap.py + many seeded compositions), judged by the model-independent accounting oracle."""
     cs = overlap.cases(ctx.rng, 400 if ctx.quick() else 4000)
-    res, go = run_and_judge(ctx, [(cid, u, st) for cid, u, st, _ in cs], 'search')
+    res, go = run_and_judge(ctx, [(cid, u, st) for cid, u, st, _ in cs], 'search', kinds={c[0]: c[3] for c in cs})
     by = {c[0]: c for c in cs}
     new = False
     for cid in sorted(res, key=lambda c: len(by[c][2])):
@@ -324,7 +382,8 @@ def correspondence(ctx, verdict, pr):
             orc += 1
             verdict.oracle_failure('deadlock:' + cid, 'C16 scenario deadlocked (C17\'s property)', dict(case=dict(id=cid, users=users, steps=steps), implementation=io))
             continue
-        for sig, msg in oracle(users, rp[3:], panellib.split_obs(io), ses, go['orph'].get(cid, []), strict=kind.startswith('overlap')):
+        sa, sc = strict_modes(kind)
+        for sig, msg in oracle(users, rp[3:], panellib.split_obs(io), ses, go['orph'].get(cid, []), strict=sa, strict_cutoff=sc):
             orc += 1
             failures.append((len(steps), len(failures), sig, msg,
                              dict(case=dict(id=cid, users=users, steps=steps, kind=kind), steps_as_executed=rp[3:], implementation=io, model=mo,
@@ -380,8 +439,8 @@ def replay(ctx, verdict):
     io = go['obs'].get(cid, '')
     print('scenario:      ', line); print('as executed:   ', ' '.join(go['replay'].get(cid, [])))
     print('implementation:', io); print('model:         ', model.get(cid)); print('sessions:', go['ses'].get(cid))
-    strict = str(case.get('kind', case['id'])).startswith(('overlap', 'ov'))
-    bad = oracle(case['users'], go['replay'].get(cid, [])[3:], panellib.split_obs(io), go['ses'].get(cid, []), go['orph'].get(cid, []), strict=strict) if io else [('driver', log[-1500:])]
+    sa, sc = strict_modes(case.get('kind', case['id']))
+    bad = oracle(case['users'], go['replay'].get(cid, [])[3:], panellib.split_obs(io), go['ses'].get(cid, []), go['orph'].get(cid, []), strict=sa, strict_cutoff=sc) if io else [('driver', log[-1500:])]
     for sig, msg in bad:
         print('oracle:', sig, msg)
     for ln in overlap.describe(case['steps']):
